@@ -19,6 +19,7 @@ EXTENDS Naturals, Sequences, FiniteSets, TLC, Json
 
 CONSTANTS
     SegName,      \* sequence of segment texts in byte order
+    SegChars,     \* the same texts as sequences of one-character strings (for the byte-level rule)
     RegPaths,     \* paths that may be registered (sequences of segment indices)
     Modules,      \* event modules that are looked up
     Levels,       \* 1..4  (Debug < Info < Warn < Error)
@@ -54,6 +55,50 @@ Longest(S) == CHOOSE p \in S : \A q \in S : Len(q) <= Len(p)
 MinFor(m) ==
     IF Candidates(m) # {} THEN reg[Longest(Candidates(m))]
     ELSE dflt          \* None = accept everything
+
+\* the registered path that governs m (<<>> = none: the default applies)
+Governing(m) == IF Candidates(m) # {} THEN Longest(Candidates(m)) ELSE <<>>
+
+-----------------------------------------------------------------------------
+(* The matching rule as documented: "Event modules are matched based on
+   Path::is_child_of" (src/level.rs, doc of MinLevelPathMap).
+
+   Level A: p governs m when p is m or an ancestor of m at `::` boundaries (IsPrefixOf on
+   segments).  Level B: core/src/path.rs `is_child_of`, which works on the *text* of the two
+   paths at byte offsets:
+       if child.is_char_boundary(parent.len()) {
+           let (prefix, suffix) = child.split_at(parent.len());
+           prefix == parent && (suffix.is_empty() || suffix.starts_with("::"))
+       } else { false }
+   A text is a sequence of characters, each 1..4 bytes wide; a byte offset is a character
+   boundary when it is the byte length of some prefix of the characters (0 and the whole
+   length included, anything beyond the length is not). *)
+ByteW(c) == IF c \in {"é"} THEN 2 ELSE 1
+RECURSIVE ByteLen(_)
+ByteLen(t) == IF t = <<>> THEN 0 ELSE ByteW(Head(t)) + ByteLen(Tail(t))
+
+RECURSIVE PathChars(_)
+PathChars(p) ==
+    IF p = <<>> THEN <<>>
+    ELSE IF Len(p) = 1 THEN SegChars[p[1]]
+    ELSE SegChars[p[1]] \o <<":", ":">> \o PathChars(Tail(p))
+
+IsChildOfB(child, parent) ==
+    LET n == ByteLen(parent)
+        cuts == {k \in 0..Len(child) : ByteLen(SubSeq(child, 1, k)) = n}      \* is_char_boundary(n)
+    IN IF cuts = {} THEN FALSE
+       ELSE LET k == CHOOSE k \in cuts : TRUE
+                prefix == SubSeq(child, 1, k)
+                suffix == SubSeq(child, k + 1, Len(child))
+            IN prefix = parent
+               /\ (suffix = <<>> \/ (Len(suffix) >= 2 /\ suffix[1] = ":" /\ suffix[2] = ":"))
+
+AllPaths == RegPaths \cup Modules
+\* evaluated once (a constant): the relation is_child_of computes on the texts of all paths
+ChildOfTable == [m \in AllPaths |-> {p \in AllPaths : IsChildOfB(PathChars(m), PathChars(p))}]
+
+\* is_child_of is the statement's "is the module or an ancestor of it at `::` boundaries"
+ChildOfIsSelfOrAncestor == \A m \in AllPaths, p \in AllPaths : (p \in ChildOfTable[m]) <=> IsPrefixOf(p, m)
 
 -----------------------------------------------------------------------------
 (* Level B: the trie *)
@@ -139,6 +184,14 @@ ChildrenSorted ==
 \* the code's lookup is the statement's lookup, for every module
 TrieRefinesMap == \A m \in Modules : TrieLookup(m) = MinFor(m)
 
+\* the documented matching rule: what the trie answers is the level of the most specific
+\* registered path the module is_child_of (level B of the relation), else the default
+ChildOfCandidates(m) == {p \in RegPaths : reg[p] # None /\ p \in ChildOfTable[m]}
+MapMatchesByIsChildOf ==
+    \A m \in Modules :
+        /\ ChildOfCandidates(m) = Candidates(m)
+        /\ TrieLookup(m) = (IF ChildOfCandidates(m) # {} THEN reg[Longest(ChildOfCandidates(m))] ELSE dflt)
+
 \* a registration changes the entry of that path only
 RegisterLocal ==
     [][\A p \in RegPaths : reg'[p] # reg[p] =>
@@ -156,5 +209,10 @@ HistNamed(h) == [k \in 1..Len(h) |-> [op |-> h[k].op, path |-> ModName(h[k].path
 
 EmitReplay ==
     Emit => PrintT(<<"REPLAY", ToJson([ops |-> HistNamed(hist'),
-                 expect |-> {[mdl |-> ModName(m), min |-> MinFor(m)'] : m \in Modules}])>>)
+                 expect |-> {[mdl |-> ModName(m), min |-> MinFor(m)', by |-> ModName(Governing(m)')] : m \in Modules}])>>)
+
+\* printed once: is_child_of for every ordered pair of paths of the universe
+ChildOfLine ==
+    PrintT(<<"CHILDOF", ToJson({[child |-> ModName(m), parent |-> ModName(p), is |-> IsPrefixOf(p, m)] :
+                                    m \in AllPaths, p \in AllPaths})>>)
 =============================================================================
